@@ -11,9 +11,9 @@
 (***************************************************************************)
 EXTENDS Integers, Sequences, FiniteSets, TLC
 
-CONSTANTS SrcList,      \* configured sources ( {} = not configured )
-          KeyList,      \* configured keys    ( {} = not configured )
-          KF_S8         \* finding S8: names from the payload header are joined without a check
+CONSTANTS KF_S8,        \* finding S8: names from the payload header are joined without a check
+          KF_S14        \* finding S14: the ready flag is cleared inside Recover(), which main/server.go
+                        \* starts as a goroutine: requests that arrive before it runs are processed
 
 (* path segments: "n" a normal name, ".." parent, "." current, "" empty *)
 Up == ".."
@@ -22,7 +22,7 @@ Walk(segs, depth, esc) ==           \* filepath.Join + Clean below a root: does 
   IF segs = <<>> THEN esc
   ELSE LET s == Head(segs)
        IN IF s = Up THEN Walk(Tail(segs), depth - 1, esc \/ depth - 1 < 0)
-          ELSE IF s \in {"", "."} THEN Walk(Tail(segs), depth, esc)
+          ELSE IF s \in {"", ".", "ABS"} THEN Walk(Tail(segs), depth, esc)
           ELSE Walk(Tail(segs), depth + 1, esc)
 Escapes(segs) == Walk(segs, 0, FALSE)
 IsLocal(segs) == ~Escapes(segs) /\ segs # <<>> /\ Head(segs) # "ABS"   \* filepath.IsLocal
@@ -32,15 +32,21 @@ SrcOK(s) == s \in {"s1", "s2", "zz", "..", "s1/x"}       \* "S1", "s1$", "" do n
 \* the directory a source maps to ( "/" -> "--" ); ".." stays ".."
 SrcDirEscapes(s) == s = ".."
 
-Allowed(src, key) ==
-  /\ (SrcList # {} => (SrcOK(src) /\ src \in SrcList))
-  /\ (KeyList # {} => key \in KeyList)
+\* the sources that have a staging area when the receiver starts (the ones start-up recovery
+\* concerns; a gatekeeper for any other source name is created on demand and is ready at once)
+StartSrcs == {"s1", "s2", "zz"}
+
+\* cf = [sources, keys]: the configured lists ( {} = not configured )
+Allowed(cf, src, key) ==
+  /\ (cf.sources # {} => (SrcOK(src) /\ src \in cf.sources))
+  /\ (cf.keys # {} => key \in cf.keys)
 
 \* the answer of handleValidate ("pass" = handed to the route)
-Gate(src, key, ready) ==
+Gate(cf, src, key, ready) ==
   IF src = "" THEN "400"
-  ELSE IF ~ready THEN "503"
-  ELSE IF ~Allowed(src, key) THEN "403"
+  ELSE IF ~KF_S8 /\ SrcDirEscapes(src) THEN "400"       \* filepath.IsLocal(source) (absent as found: S8)
+  ELSE IF ~ready /\ src \in StartSrcs THEN "503"
+  ELSE IF ~Allowed(cf, src, key) THEN "403"
   ELSE "pass"
 
 \* the data route for one complete, correct part named `name`, with rename target `ren`
@@ -64,38 +70,41 @@ StaticRoute(src, path, method, exists) ==
 
 -----------------------------------------------------------------------------
 (* the model: any request at any time, recovery may be in progress *)
-CONSTANTS Srcs, Keys, NamePool, RenPool, StaticPool
-VARIABLES ready, ev
-vars == <<ready, ev>>
+CONSTANTS Confs, Srcs, Keys, NamePool, RenPool, StaticPool
+VARIABLES conf, ready, ev
+vars == <<conf, ready, ev>>
 Routes == {"data", "data-recovery", "validate", "partials", "static-get", "static-delete"}
 
 Answer(r) ==
-  LET g == Gate(r.src, r.key, ready)
+  LET g == Gate(conf, r.src, r.key, ready)
   IN IF g # "pass" THEN [status |-> g, touched |-> {}]
      ELSE CASE r.route = "data" -> DataRoute(r.src, r.name, r.ren)
             [] r.route \in {"data-recovery", "validate", "partials"} -> [status |-> "200", touched |-> {}]
             [] r.route = "static-get" -> StaticRoute(r.src, r.path, "GET", r.exists)
             [] r.route = "static-delete" -> StaticRoute(r.src, r.path, "DELETE", r.exists)
 
-Init == ready = TRUE /\ ev = [op |-> "none"]
+Init == conf \in Confs /\ ready = TRUE /\ ev = [op |-> "none"]
+Ev(r) == [op |-> "req", conf |-> conf, req |-> r, ready |-> ready, early |-> FALSE, ans |-> Answer(r)]
 Request ==
   \E route \in Routes, src \in Srcs, key \in Keys :
     \/ /\ route \in {"data", "data-recovery", "validate"}
        /\ \E name \in NamePool, ren \in RenPool :
             LET r == [route |-> route, src |-> src, key |-> key, name |-> name, ren |-> ren,
                       path |-> <<>>, exists |-> FALSE]
-            IN ev' = [op |-> "req", req |-> r, ready |-> ready, ans |-> Answer(r)]
+            IN ev' = Ev(r)
     \/ /\ route = "partials"
        /\ LET r == [route |-> route, src |-> src, key |-> key, name |-> <<>>, ren |-> <<>>,
                     path |-> <<>>, exists |-> FALSE]
-          IN ev' = [op |-> "req", req |-> r, ready |-> ready, ans |-> Answer(r)]
+          IN ev' = Ev(r)
     \/ /\ route \in {"static-get", "static-delete"}
        /\ \E p \in StaticPool, x \in BOOLEAN :
             LET r == [route |-> route, src |-> src, key |-> key, name |-> <<>>, ren |-> <<>>,
                       path |-> p, exists |-> x]
-            IN ev' = [op |-> "req", req |-> r, ready |-> ready, ans |-> Answer(r)]
+            IN ev' = Ev(r)
 Toggle == ready' = ~ready /\ ev' = [op |-> "recover", ready |-> ~ready]
-Next == (Request /\ UNCHANGED ready) \/ Toggle
+\* requests are independent of one another (the gate keeps no state between them): one request
+\* per behaviour, before or during recovery
+Next == (ev.op # "req" /\ Request /\ UNCHANGED <<conf, ready>>) \/ (ev.op = "none" /\ Toggle /\ UNCHANGED conf)
 Spec == Init /\ [][Next]_vars
 
 -----------------------------------------------------------------------------
@@ -108,12 +117,19 @@ P_C14_Confined(e) ==
 P_C14_RefusedClean(e) ==
   (IsReq(e) /\ e.ans.status \in {"400", "403", "404", "405", "503"}) => e.ans.touched = {}
 \* C15: not allowed => 403 (400 without a source) and no effect
+\* net/http's mux answers a path with literal dot segments by a redirect to the cleaned path
+\* before any handler of the receiver runs: nothing is granted, looked up or changed
+Redirected(e) ==
+  /\ e.req.route \in {"static-get", "static-delete"} /\ \E i \in 1..Len(e.req.path) : e.req.path[i] = Up
+  /\ e.ans.status = "301" /\ e.ans.touched = {}
 P_C15_Refused(e) ==
-  (IsReq(e) /\ e.ready /\ ~Allowed(e.req.src, e.req.key)) =>
-     (e.ans.status = (IF e.req.src = "" THEN "400" ELSE "403") /\ e.ans.touched = {})
+  (IsReq(e) /\ e.ready /\ ~Allowed(e.conf, e.req.src, e.req.key) /\ ~Redirected(e)) =>
+     \* (a source name that would leave the roots is refused as malformed before it is looked up)
+     (e.ans.status = (IF e.req.src = "" \/ (~KF_S8 /\ SrcDirEscapes(e.req.src)) THEN "400" ELSE "403")
+      /\ e.ans.touched = {})
 \* C15: while recovering => unavailable and no effect
 P_C15_Unavailable(e) ==
-  (IsReq(e) /\ ~e.ready /\ e.req.src # "") => (e.ans.status = "503" /\ e.ans.touched = {})
+  (IsReq(e) /\ ~e.ready /\ e.req.src \in StartSrcs /\ ~(KF_S14 /\ e.early) /\ ~Redirected(e)) => (e.ans.status = "503" /\ e.ans.touched = {})
 
 Inv_C14_Confined == P_C14_Confined(ev)
 Inv_C14_RefusedClean == P_C14_RefusedClean(ev)
